@@ -19,7 +19,8 @@ RULE = ("accept2 probe: one server, two listeners with 0-2 idle connections each
         "completes} for 2-3 overlapping chunked transfers (SMTP and LMTP), plus Close / Shutdown / QUIT / disconnect while a delivery is in "
         "flight; goroutines left behind are counted after each case. non-trivial = at least one accept outcome or one gated delivery")
 THEOREMS = ["C20_second_close", "C20_temp_errors", "own_verdict_all_schedules", "never_blocked_step", "pinned_tree_counterexample", "pinned_tree_leak",
-            "C20_close_ends_everything"]
+            "C20_close_ends_everything", "C20_late_start_no_panic", "C20_late_start_never_calls", "C20_late_start_pinned_panics",
+            "C20_late_start_window_remains"]
 nontrivial = lambda case, ans: True
 signature = lambda case, ans: case.split("\t")[0] + ":" + (ans.split(";")[0] if case.startswith("accept") else ans.split("\t")[-1][:20])
 mutate = lambda case, rng: []
